@@ -101,7 +101,7 @@ class BddGen:
             self.q("dot 2 %s %s" % (self.a(kk, False), self.a(kk, True)))
         # long cubes: diagrams with 63 .. 300 levels (lengths around powers of two), as care sets of constrain / restrict, as
         # arguments of the cofactor operations, and queried
-        K = r.choice([63, 64, 65, 127, 128, 129, 130, 255, 256, 257, 300])
+        K = r.choice([63, 64, 65, 127, 128, 129, 130, 255, 256, 257, 300, 300, 1000, 1025, 1400, 2049, 4100])
         lits = [v if r.random() < 0.7 else -v for v in range(1, K + 1)]
         kc = self.reg("cube %d %s" % (K, " ".join(map(str, lits))), None, False)
         self.live.append(kc)
@@ -153,7 +153,7 @@ class BddGen:
         # variable numbers >= 2^31: they cannot be written as i32 literals (cube / clause / cofactor_cube, and one_sat / paths
         # print them as negative numbers: documented bound), so their registers are kept out of the pool the random operations
         # draw from and only the operations that take u32 variables are applied to them
-        huge = [r.choice([2147483648, 2147483649, 3000000000, 4000000000, 4294967294]) for _ in range(2)]
+        huge = [r.choice([2147483648, 2147483649, 3000000000, 4000000000, 4294967294, 4294967295]) for _ in range(2)]
         if huge[0] != huge[1]:
             hv = [self.reg("var %d" % v, None, False) for v in huge]
             sm = self.pick()
